@@ -1005,6 +1005,8 @@ def _r5(ctx, m):
 
 T = FILE
 MUTANTS = [
+    {'name': 'thermal-wrap-in-a-guard-clause-helper-drops-gamma', 'edits': [{'file': 'naunet/templateloader.py', 'old': '    def _prepare_ode_content(\n', 'new': '    @staticmethod\n    def _wrap_thermal(rhs, jacrhs, n_spec, n_eqns, has_thermal):\n        if not has_thermal:\n            return\n        rhs[n_spec] = f"(gamma - 1.0) * ( {rhs[n_spec]} ) / kerg / npar"\n        for si in range(n_spec):\n            pos = n_spec * n_eqns + si\n            if jacrhs[pos] != "0.0":\n                jacrhs[pos] = f"( {jacrhs[pos]} ) / kerg / npar"\n\n    def _prepare_ode_content(\n'}, {'file': 'naunet/templateloader.py', 'old': '            rhs[n_spec] = f"(gamma - 1.0) * ( {rhs[n_spec]} ) / kerg / npar"\n            for si in range(n_spec):\n                jacrhs[n_spec * n_eqns + si] = (\n                    "0.0"\n                    if jacrhs[n_spec * n_eqns + si] == "0.0"\n                    else f"(gamma - 1.0) * ( {jacrhs[n_spec * n_eqns + si]} ) / kerg / npar"\n                )\n', 'new': '            self._wrap_thermal(rhs, jacrhs, n_spec, n_eqns, has_thermal)\n'}], 'rules': ['R3']},
+    {'name': 'heat-derivative-terms-from-a-list-helper-that-removes-nothing', 'edits': [{'file': 'naunet/templateloader.py', 'old': '    def _prepare_ode_content(\n', 'new': '    @staticmethod\n    def _derivative_terms(prefix, rspecidx, rsym, y):\n        terms = []\n        for ri in rspecidx:\n            rest = rsym.copy()\n            terms.append((ri, "*".join([prefix, *rest])))\n        return terms\n\n    def _prepare_ode_content(\n'}, {'file': 'naunet/templateloader.py', 'old': '            for ri in rspecidx:\n                rsymcopy = rsym.copy()\n                rsymcopy.remove(y[ri])\n                term = f" + {\'*\'.join([f\'{hrate_sym}[{hidx}]\', *rsymcopy])}"\n                # only fill the last row of jacobian\n                jacrhs[n_spec * n_eqns + ri] += term\n', 'new': '            for ri, dterm in self._derivative_terms(f"{hrate_sym}[{hidx}]", rspecidx, rsym, y):\n                jacrhs[n_spec * n_eqns + ri] += f" + {dterm}"\n'}], 'rules': ['R1']},
     {"name": "jacobian-table-handed-out-from-a-module-level-memo", "edits": [
         {"file": T, "old": "\nclass TemplateLoader:\n", "new": "\n_JAC_TABLES = {}\n\n\nclass TemplateLoader:\n"},
         {"file": T, "old": "    def _prepare_ode_content(\n", "new": "    def _empty_table(self, n):\n        table = _JAC_TABLES.get(n)\n        if table is None:\n            table = [\"0.0\"] * n * n\n            _JAC_TABLES[n] = table\n        return table\n\n    def _prepare_ode_content(\n"},
@@ -1071,6 +1073,12 @@ MUTANTS = [
     {"name": "skip-catalyst-jac", "file": T, "old": "            for specidx in pspecidx:\n                for ri in rspecidx:\n                    rsymcopy = rsym.copy()", "new": "            for specidx in pspecidx:\n                if specidx in rspecidx:\n                    continue\n                for ri in rspecidx:\n                    rsymcopy = rsym.copy()", "rules": ["R1"]},
 ]
 BENIGN = [
+    {'name': 'heat-guard-clause-before-column-loop', 'file': 'naunet/templateloader.py', 'old': '            for ri in rspecidx:\n                rsymcopy = rsym.copy()\n                rsymcopy.remove(y[ri])\n                term = f" + {\'*\'.join([f\'{hrate_sym}[{hidx}]\', *rsymcopy])}"\n                # only fill the last row of jacobian\n                jacrhs[n_spec * n_eqns + ri] += term\n', 'new': '            if not rspecidx:\n                continue\n            for ri in rspecidx:\n                rsymcopy = rsym.copy()\n                rsymcopy.remove(y[ri])\n                term = f" + {\'*\'.join([f\'{hrate_sym}[{hidx}]\', *rsymcopy])}"\n                # only fill the last row of jacobian\n                jacrhs[n_spec * n_eqns + ri] += term\n'},
+    {'name': 'wrap-thermal-block-guard-clause-helper', 'edits': [{'file': 'naunet/templateloader.py', 'old': '    def _prepare_ode_content(\n', 'new': '    @staticmethod\n    def _wrap_thermal(rhs, jacrhs, n_spec, n_eqns, has_thermal):\n        if not has_thermal:\n            return\n        rhs[n_spec] = f"(gamma - 1.0) * ( {rhs[n_spec]} ) / kerg / npar"\n        for si in range(n_spec):\n            pos = n_spec * n_eqns + si\n            if jacrhs[pos] != "0.0":\n                jacrhs[pos] = f"(gamma - 1.0) * ( {jacrhs[pos]} ) / kerg / npar"\n\n    def _prepare_ode_content(\n'}, {'file': 'naunet/templateloader.py', 'old': '            rhs[n_spec] = f"(gamma - 1.0) * ( {rhs[n_spec]} ) / kerg / npar"\n            for si in range(n_spec):\n                jacrhs[n_spec * n_eqns + si] = (\n                    "0.0"\n                    if jacrhs[n_spec * n_eqns + si] == "0.0"\n                    else f"(gamma - 1.0) * ( {jacrhs[n_spec * n_eqns + si]} ) / kerg / npar"\n                )\n', 'new': '            self._wrap_thermal(rhs, jacrhs, n_spec, n_eqns, has_thermal)\n'}]},
+    {'name': 'heat-jac-terms-from-list-helper', 'edits': [{'file': 'naunet/templateloader.py', 'old': '    def _prepare_ode_content(\n', 'new': '    @staticmethod\n    def _derivative_terms(prefix, rspecidx, rsym, y):\n        terms = []\n        for ri in rspecidx:\n            rest = rsym.copy()\n            rest.remove(y[ri])\n            terms.append((ri, "*".join([prefix, *rest])))\n        return terms\n\n    def _prepare_ode_content(\n'}, {'file': 'naunet/templateloader.py', 'old': '            for ri in rspecidx:\n                rsymcopy = rsym.copy()\n                rsymcopy.remove(y[ri])\n                term = f" + {\'*\'.join([f\'{hrate_sym}[{hidx}]\', *rsymcopy])}"\n                # only fill the last row of jacobian\n                jacrhs[n_spec * n_eqns + ri] += term\n', 'new': '            for ri, dterm in self._derivative_terms(f"{hrate_sym}[{hidx}]", rspecidx, rsym, y):\n                jacrhs[n_spec * n_eqns + ri] += f" + {dterm}"\n'}]},
+    {'name': 'n-eqns-conditional-expression', 'file': 'naunet/templateloader.py', 'old': '        n_eqns = max(n_spec + has_thermal, 1)\n', 'new': '        n_eqns = n_spec + 1 if has_thermal else n_spec\n        n_eqns = max(n_eqns, 1)\n'},
+    {'name': 'netinfo-module-function', 'edits': [{'file': 'naunet/templateloader.py', 'old': '\nclass TemplateLoader:\n', 'new': '\ndef _network_info(net):\n    dummy = [Reaction(reaction_type=ReactionType.DUMMY)]\n    return NetworkInfo(net.elements, net.species, net.reactions or dummy, net.heating, net.cooling, net.grains, net.shielding)\n\n\nclass TemplateLoader:\n'}, {'file': 'naunet/templateloader.py', 'old': '        info = NetworkInfo(\n            network.elements,\n            network.species,\n            network.reactions or [Reaction(reaction_type=ReactionType.DUMMY)],\n            network.heating,\n            network.cooling,\n            network.grains,\n            network.shielding,\n        )\n', 'new': '        info = _network_info(network)\n'}]},
+    {'name': 'csr-extracted-into-helper-returning-tuple', 'edits': [{'file': 'naunet/templateloader.py', 'old': '    def _prepare_ode_content(\n', 'new': '    @staticmethod\n    def _to_csr(entries, n):\n        rptr, cval, data = [], [], []\n        count = 0\n        for row in range(n):\n            rptr.append(count)\n            for col in range(n):\n                elem = entries[row * n + col]\n                if elem != "0.0":\n                    cval.append(col)\n                    data.append(f"{elem}")\n                    count += 1\n        rptr.append(count)\n        return count, rptr, cval, data\n\n    def _prepare_ode_content(\n'}, {'file': 'naunet/templateloader.py', 'old': '        spjacrptr = []\n        spjaccval = []\n        spjacdata = []\n\n        nnz = 0\n\n        for row in range(n_eqns):\n            spjacrptr.append(nnz)\n            for col in range(n_eqns):\n                elem = jacrhs[row * n_eqns + col]\n                if elem != "0.0":\n                    spjaccval.append(col)\n                    spjacdata.append(f"{elem}")\n                    nnz += 1\n        spjacrptr.append(nnz)\n', 'new': '        nnz, spjacrptr, spjaccval, spjacdata = self._to_csr(jacrhs, n_eqns)\n'}]},
     {"name": "jacobian-kept-as-a-list-of-rows-flattened-once", "edits": [
         {"file": T, "old": "from pathlib import Path\n", "new": "from itertools import chain\nfrom pathlib import Path\n"},
         {"file": T, "old": '        jacrhs = ["0.0"] * n_eqns * n_eqns\n', "new": '        jacrows = [["0.0"] * n_eqns for _ in range(n_eqns)]\n'},
